@@ -154,6 +154,44 @@ Proof.
   apply (nodup_app_l _ (items s)). eapply Permutation_NoDup; [apply Permutation_sym; exact C|exact Hnd].
 Qed.
 
+(* AddReqAnyway / AddAnyway / AddCtrlAnyway retry an add until it is not answered "full": an attempt answered "full"
+   (or "closed") changes nothing and wakes nobody, so only the last attempt of such a call matters *)
+Theorem full_add_is_noop c s l s' r : (exists x, l = LAdd x None \/ l = LAddCtrl x) ->
+  step c s l = Some (s', OAdd r) -> r <> AOk -> s' = s.
+Proof.
+  intros [x [-> | ->]] H Hr; cbn [step] in H.
+  - destruct (is_sync (knd c)).
+    + destruct (closed s); [inversion H|]. destruct (existsb is_waiting (cs s)); inversion H.
+    + destruct (closed s); [inversion H; auto|]. destruct (full (reqmax c) (req s)); inversion H; subst; auto. congruence.
+  - destruct (negb (is_mq (knd c))); [discriminate|]. destruct (closed s); [inversion H; auto|].
+    destruct (full (ctrlmax c) (ctrl s)); inversion H; subst; auto. congruence.
+Qed.
+
+(* an accepted add - the last attempt of an ...Anyway call included - leaves no consumer waiting: all are woken
+   (pipe queues, MQ) *)
+Theorem accepted_add_wakes_all c s l s' : knd c <> KSync ->
+  (exists x, l = LAdd x None \/ l = LAddPrior x \/ l = LAddCtrl x \/ l = LAddPriorCtrl x) ->
+  step c s l = Some (s', OAdd AOk) -> nwaiting s' = 0.
+Proof.
+  intros Hk [x Hl] H.
+  assert (W : forall s0, nwaiting (wake_all s0) = 0) by (intros s0; unfold nwaiting, wake_all; cbn; apply cnt_wake_waiting).
+  destruct Hl as [-> | [-> | [-> | ->]]]; cbn [step] in H.
+  - destruct (knd c); cbn in *; try congruence;
+      (destruct (closed s); [discriminate|]; destruct (full (reqmax c) (req s)); inversion H; apply W).
+  - destruct (knd c); cbn in *; try congruence; (destruct (closed s); inversion H; apply W).
+  - destruct (knd c); cbn in *; try congruence; try discriminate.
+    destruct (closed s); [discriminate|]. destruct (full (ctrlmax c) (ctrl s)); inversion H; apply W.
+  - destruct (knd c); cbn in *; try congruence; try discriminate. destruct (closed s); inversion H; apply W.
+Qed.
+
+(* MQ.TryClear answers true exactly on a closed, drained queue and never touches what consumers see *)
+Theorem tryclear_spec c s s' o : step c s LTryClear = Some (s', o) ->
+  s' = s /\ o = OBool (closed s && is_nil (items s)).
+Proof.
+  cbn [step]. destruct (negb (is_mq (knd c))); [discriminate|]. intros H. injection H as Hs Ho. subst s' o. split; auto.
+  unfold items. destruct (ctrl s); [destruct (req s)|]; reflexivity.
+Qed.
+
 (* non-vacuity: two consumers blocked on a SyncQueue, two pushes in a burst (each Signal wakes one of them), both return *)
 Example two_items_two_consumers :
   let c := {| knd := KSync; reqmax := 0; ctrlmax := 0; nthr := 2 |} in
